@@ -172,3 +172,98 @@ def bounded(tier, seed):
                      f"from-scratch rebuild at the current input values. seed={seed}"),
             "samples": [{"graph": [["strong", "s0", [], True], ["weakdist", "n0", ["s0"], 4]], "history": [["auto_update", False], ["assign", "s0", 1.5], ["update", "n0_log_prob"]]}],
             "exhaustive": False, "violations": col.violations}
+
+
+# ---------------------------------------------------------------------------------------------- replay of symbolic histories
+
+
+def native_shape(shape, counters):
+    """numeric twins of the shapes in contracts/graph.py (same names, same wiring)"""
+    import jax.numpy as jnp
+
+    def f(name, w):
+        def g(*xs, **kw):
+            counters[name] = counters.get(name, 0) + 1
+            return np.float32(w + sum((j + 2) * np.float32(x) for j, x in enumerate(list(xs) + [kw[k] for k in sorted(kw)])))
+        return g
+
+    V = lambda v: np.float32(v)  # noqa: E731
+    if shape == "hier":
+        tau = lsl.param(V(1.5), lsl.Dist(tfd.HalfNormal, scale=2.0), name="tau")
+        mu = lsl.param(V(0.3), lsl.Dist(tfd.Normal, loc=0.0, scale=tau), name="mu")
+        sigma = lsl.Var(lsl.Calc(lambda t: np.float32(1.0) + np.float32(t) ** 2, tau), name="sigma")
+        y = lsl.obs(V(0.7), lsl.Dist(tfd.Normal, mu, scale=sigma), name="y")
+        return [y]
+    if shape == "diamond":
+        a = lsl.param(V(0.4), lsl.Dist(tfd.Normal, loc=0.0, scale=2.0), name="a")
+        left = lsl.Calc(f("left", 3), a, _name="left")
+        right = lsl.TransientCalc(lambda x: np.float32(2.0) + np.float32(x) ** 2, a, _name="right")
+        y = lsl.obs(V(0.1), lsl.Dist(tfd.Normal, left, right), name="y")
+        leaf = lsl.Var(lsl.Calc(f("leaf", 5), left, y), name="leaf")
+        return [y, leaf]
+    if shape == "flat":
+        b = lsl.param(V(0.2), lsl.Dist(tfd.Normal, loc=0.0, scale=1.0), name="b")
+        c = lsl.param(V(1.2), lsl.Dist(tfd.HalfNormal, scale=1.0), name="c")
+        y = lsl.obs(V(0.5), lsl.Dist(tfd.Normal, b, c), name="y")
+        return [y]
+    a = lsl.param(V(0.4), lsl.Dist(tfd.Normal, loc=0.0, scale=2.0), name="a")
+    b = lsl.Var(V(1.3), name="b")
+    w = lsl.Var(lsl.Calc(f("w", 2), a), lsl.Dist(tfd.Normal, loc=0.0, scale=b), name="w")
+    w.observed = True
+    const = lsl.Value(V(0.9), _name="const")
+    c1 = lsl.Calc(f("c1", 3), const, _name="c1")
+    c2 = lsl.Calc(f("c2", 4), const, c1, _name="c2")
+    return [w, c2]
+
+
+def replay(unit_id, obligation, model):
+    import ast as _ast
+
+    if not unit_id.startswith("C01.histories."):
+        return None
+    shape = unit_id.split(".")[-1]
+    try:
+        hist = _ast.literal_eval(model["__meta__"]["history"])
+    except (KeyError, ValueError, SyntaxError):
+        return None
+    counters = {}
+    m = lsl.GraphBuilder().add(*native_shape(shape, counters)).build_model()
+    values = {}
+    saved = None
+    for step, op in enumerate(hist):
+        if op[0] == "assign":
+            values[op[1]] = 0.37 + step
+            m.vars[op[1]].value = np.float32(values[op[1]])
+        elif op[0] == "assign_node":
+            values[op[1]] = 0.21 + step
+            m.nodes[op[1]].value = np.float32(values[op[1]])
+        elif op[0] == "toggle":
+            m.auto_update = not m.auto_update
+        elif op[0] == "update":
+            m.update(*op[1:])
+            anc = set()
+            if len(op) > 1:
+                todo = [m.nodes[op[1]]]
+                while todo:
+                    x = todo.pop()
+                    if x.name not in anc:
+                        anc.add(x.name)
+                        todo.extend(x.all_input_nodes())
+            bad = [n for n in (anc or m.nodes) if m.nodes[n].outdated]
+            if bad:
+                return {"sig": "native::coherence::update_leaves_outdated", "what": f"after {op} these nodes are still outdated: {bad}", "input": {"shape": shape, "history": hist}}
+        elif op[0] == "save":
+            saved = (m.state, dict(values))
+        elif op[0] == "restore" and saved is not None:
+            m.state = saved[0]
+            values = dict(saved[1])
+        ref = lsl.GraphBuilder().add(*native_shape(shape, {})).build_model()
+        for k, v in values.items():
+            (ref.vars[k] if k in ref.vars else ref.nodes[k]).value = np.float32(v)
+        ref.update()
+        now, want = snapshot(m), snapshot(ref)
+        for k in now:
+            if not now[k][1] and now[k][0] is not None and not np.isclose(now[k][0], want[k][0], rtol=1e-5, atol=1e-5):
+                return {"sig": "native::coherence::stale_value", "what": f"after {hist[: step + 1]}: node {k} reports up to date but holds {now[k][0]}, from-scratch value {want[k][0]}",
+                        "input": {"shape": shape, "history": hist[: step + 1]}}
+    return None
